@@ -222,12 +222,18 @@ def prepare(tier):
     core.build_driver()
 
 
-def api_text(sc, v, case, name, eff):
-    """the probe formatted through the library API with the effective options set via Config::override_value"""
+SETTER_KEYS = {"max_width", "tab_spaces", "fn_call_width", "attr_fn_like_width", "struct_lit_width", "struct_variant_width",
+               "array_width", "chain_width", "single_line_if_else_max_width", "single_line_let_else_max_width", "hard_tabs",
+               "reorder_imports", "merge_imports", "hide_parse_errors", "show_parse_errors"}
+
+
+def api_text(sc, v, case, name, eff, setters=False):
+    """the probe formatted through the library API with the effective options set via Config::override_value (or, with
+    setters=True, through the typed setter calls `config.set().option(value)`)"""
     import json as _json
     order = sorted(eff, key=lambda k: (0 if k == "max_width" else 1 if k == "use_small_heuristics" else 2, k))
     steps = [{"file": os.path.join(sc.root, "zref", name), "discover": False, "config_path": None,
-              "overrides": [[k, gen_config.cli_value(eff[k])] for k in order]}]
+              ("setters" if setters else "overrides"): [[k, gen_config.cli_value(eff[k])] for k in order]}]
     with open(os.path.join(sc.top, "script.json"), "w") as f:
         _json.dump({"emit": "stdout", "steps": steps}, f)
     res = core.run_inv(sc, {"tool": core.DRIVER, "argv": [os.path.join(sc.top, "script.json")], "hashseed": case["hashseed"],
@@ -438,6 +444,12 @@ def execute(case):
                     v.probe("api-lane")
                     if asec != rsec:
                         v.add("C14:file-vs-api-same-values", "options %s give different bytes from a file and from the API" % eff, probe=p)
+                if set(eff) <= SETTER_KEYS:
+                    ssec = api_text(sc, v, case, name, eff, setters=True)
+                    if ssec is not None:
+                        v.probe("api-lane-typed-setters")
+                        if ssec != rsec:
+                            v.add("C14:file-vs-api-same-values|typed-setters", "options %s give different bytes from a file and from the typed setter API (config.set().option(value))" % eff, probe=p)
             # ---- print-config dumps
             dargv = ["--print-config", "current", parg(p)] + cli_args(cli)
             rd = core.run_inv(sc, {"argv": dargv, "cwd": case["cwd"], "env": env, "hashseed": case["hashseed"],
